@@ -25,6 +25,14 @@ class HarnessError(Exception):
     """The harness lost control of a seam (never reported as a violation)."""
 
 
+def scratch_dir(prefix):
+    """a private scratch directory under replays/ (created on demand: replays/ is not under version control)"""
+    import tempfile
+    base = os.path.join(VERIF, "replays")
+    os.makedirs(base, exist_ok=True)
+    return tempfile.mkdtemp(prefix=prefix, dir=base)
+
+
 def silence_stdout():
     """fd 1 -> /dev/null for this process and all children; keep the real one."""
     global _REAL_OUT
